@@ -168,12 +168,14 @@ func syinv(c *syncer) bool {
 // ---- contracts -------------------------------------------------------------
 
 //@ func (q *queue) size() (r uint8)
-//@   props C01 C07 C09
+//@   props C01 C07 C09 C18
+//@   acquires queue.baseMtx, queue.topMtx
 //@   requires qinv(q)
 //@   ensures int(r) == qsize(q)
 
 //@ func (q *queue) addPacket(packet *PacketData)
-//@   props C01 C07 C09
+//@   props C01 C07 C09 C18
+//@   acquires queue.topMtx
 //@   requires qinv(q) && packet != nil
 //@   requires qsize(q) < int(q.cfg.s) - 1
 //@   requires @C01,C07 notQueued(q, packet)
@@ -187,7 +189,8 @@ func syinv(c *syncer) bool {
 //@   ensures @C01,C07 implies(old(qcontent(q)), qcontent(q))
 
 //@ func (q *queue) processACK(seq uint8) (moved bool)
-//@   props C01 C07 C09
+//@   props C01 C07 C09 C18
+//@   acquires queue.baseMtx, queue.topMtx, syncer.mu
 //@   requires qinv(q)
 //@   modifies q.sequenceBase
 //@   ensures qinv(q) && q.sequenceTop == old(q.sequenceTop)
@@ -198,7 +201,8 @@ func syinv(c *syncer) bool {
 //@   ensures @C01,C07 implies(old(qcontent(q)), qcontent(q))
 
 //@ func (q *queue) processNACK(seq uint8) (resend bool, bumped bool)
-//@   props C01 C07 C09
+//@   props C01 C07 C09 C18
+//@   acquires queue.baseMtx, queue.topMtx, syncer.mu
 //@   requires qinv(q)
 //@   modifies q.sequenceBase, q.syncer.state
 //@   ensures qinv(q) && q.sequenceTop == old(q.sequenceTop)
@@ -210,22 +214,25 @@ func syinv(c *syncer) bool {
 //@   ensures @C01,C07 implies(old(qcontent(q)), qcontent(q))
 
 //@ func (c *syncer) processACK(seq uint8)
-//@   props C01 C07
+//@   props C01 C07 C18
+//@   acquires syncer.mu
 //@   requires syinv(c)
 
 //@ func (c *syncer) processNACK(seq uint8)
-//@   props C01 C07
+//@   props C01 C07 C18
+//@   acquires syncer.mu
 //@   requires syinv(c)
 //@   modifies c.state
 
 //@ func (c *syncer) resetUnsafe()
-//@   props C07
+//@   props C07 C18
 //@   requires syinv(c) && held(&c.mu)
 //@   modifies c.state
 //@   ensures c.state == syncStateIdle
 
 //@ func (c *syncer) initResendUpTo(top uint8)
-//@   props C01 C07
+//@   props C01 C07 C18
+//@   acquires syncer.mu
 //@   requires syinv(c)
 //@   modifies c.state, c.expectedACK, c.expectedNACK
 //@   ensures c.state == syncStateResending && c.expectedNACK == top
@@ -290,6 +297,43 @@ func syinv(c *syncer) bool {
 //@ field queueCfg.sendPkt logged
 //@ field GoBackNConn.cancel logged
 
+// ---- concurrency discipline (C18) -------------------------------------------
+// Every mutable field that is shared between goroutines is declared with the
+// discipline that makes its accesses race-free; the verifier generates the
+// matching obligation at every access.
+//@ field queue.sequenceBase guarded_by baseMtx
+//@ field queue.sequenceTop guarded_by topMtx
+//@ field syncer.state guarded_by mu
+//@ field syncer.expectedACK guarded_by mu
+//@ field syncer.expectedNACK guarded_by mu
+//@ field TimeoutBooster.boostCount guarded_by mu
+//@ field TimeoutBooster.originalTimeout guarded_by mu
+//@ field TimeoutBooster.lastBoost guarded_by mu
+//@ field TimeoutBooster.boostPercent immutable
+//@ field TimeoutBooster.withBoostFrequencyLimit immutable
+//@ field TimeoutManager.resendTimeout guarded_by mu
+//@ field TimeoutManager.hasSetDynamicTimeout guarded_by mu
+//@ field TimeoutManager.responseCounter guarded_by mu
+//@ field TimeoutManager.sendTimeout guarded_by mu
+//@ field TimeoutManager.recvTimeout guarded_by mu
+//@ field TimeoutManager.latestSentSYNTime guarded_by latestSentSYNTimeMu
+//@ field TimeoutManager.sentTimes guarded_by sentTimesMu
+//@ field TimeoutManager.useStaticTimeout immutable
+//@ field TimeoutManager.resendMultiplier immutable
+//@ field TimeoutManager.timeoutUpdateFrequency immutable
+//@ field TimeoutManager.resendBooster immutable
+//@ field TimeoutManager.handshakeBooster immutable
+//@ field IntervalAwareForceTicker.isActive atomic
+//@ field IntervalAwareForceTicker.lastTimedTick guarded_by lastTimedTickMtx
+//@ field IntervalAwareForceTicker.ticker guarded_by resetMtx
+//@ field IntervalAwareForceTicker.quit guarded_by resetMtx
+//@ field IntervalAwareForceTicker.interval guarded_by resetMtx
+//@ field GoBackNConn.recvSeq owned_by recv
+//@ field GoBackNConn.pingTicker owned_by send,start,close
+//@ field GoBackNConn.pongTicker owned_by send,start,close
+//@ field queue.lastResend owned_by send
+//@ lockorder TimeoutManager.mu < TimeoutManager.latestSentSYNTimeMu < TimeoutManager.sentTimesMu < TimeoutBooster.mu < queue.baseMtx < queue.topMtx < syncer.mu < IntervalAwareForceTicker.resetMtx < IntervalAwareForceTicker.lastTimedTickMtx
+
 //@ func containsSequence(base, top, seq uint8) (r bool)
 //@   props C01 C07 C09
 //@   ensures r == inwin(base, top, seq)
@@ -309,7 +353,8 @@ func tminv(m *TimeoutManager) bool {
 func boinv(b *TimeoutBooster) bool { return b != nil && past(b.lastBoost) }
 
 //@ func (b *TimeoutBooster) Boost()
-//@   props C20
+//@   props C20 C18
+//@   acquires TimeoutBooster.mu
 //@   requires boinv(b)
 //@   modifies b.lastBoost, b.boostCount
 //@   ensures boinv(b)
@@ -319,20 +364,23 @@ func boinv(b *TimeoutBooster) bool { return b != nil && past(b.lastBoost) }
 //@           b.lastBoost.Sub(old(b.lastBoost)) >= b.originalTimeout)
 
 //@ func (b *TimeoutBooster) Reset(newTimeout time.Duration)
-//@   props C20
+//@   props C20 C18
+//@   acquires TimeoutBooster.mu
 //@   requires boinv(b)
 //@   modifies b.lastBoost, b.boostCount, b.originalTimeout
 //@   ensures boinv(b) && b.boostCount == 0 && b.originalTimeout == newTimeout
 
 //@ func (b *TimeoutBooster) GetCurrentTimeout() (r time.Duration)
-//@   props C20
+//@   props C20 C18
+//@   acquires TimeoutBooster.mu
 //@   requires b != nil
 //@   ensures implies(b.boostCount == 0 && b.originalTimeout >= 0 && b.originalTimeout <= 1<<53 && b.boostPercent >= 0 && b.boostPercent <= 1000, r == b.originalTimeout)
 //@   ensures implies(b.boostCount >= 0 && b.boostCount <= 1<<16 && b.originalTimeout >= 0 && b.originalTimeout <= 1<<40 &&
 //@           b.boostPercent >= 0 && b.boostPercent <= 16, r >= b.originalTimeout)
 
 //@ func (m *TimeoutManager) updateResendTimeoutUnsafe(responseTime time.Duration)
-//@   props C20
+//@   props C20 C18
+//@   acquires TimeoutBooster.mu
 //@   requires tminv(m) && held(&m.mu)
 //@   modifies m.hasSetDynamicTimeout, m.resendTimeout, m.resendBooster.lastBoost, m.resendBooster.boostCount, m.resendBooster.originalTimeout
 //@   ensures tminv(m) && m.hasSetDynamicTimeout && m.resendTimeout >= minimumResendTimeout
@@ -341,7 +389,8 @@ func boinv(b *TimeoutBooster) bool { return b != nil && past(b.lastBoost) }
 //@           (m.resendTimeout == minimumResendTimeout && time.Duration(m.resendMultiplier)*responseTime < minimumResendTimeout)
 
 //@ func (m *TimeoutManager) Sent(msg Message, resent bool)
-//@   props C20 C07
+//@   props C20 C07 C18
+//@   acquires TimeoutManager.latestSentSYNTimeMu, TimeoutManager.sentTimesMu, TimeoutBooster.mu
 //@   requires tminv(m)
 //@   requires implies(is[*PacketData](msg), as[*PacketData](msg) != nil)
 //@   modifies m.latestSentSYNTime, entries(m.sentTimes), m.handshakeBooster.boostCount, m.handshakeBooster.lastBoost,
@@ -358,7 +407,8 @@ func boinv(b *TimeoutBooster) bool { return b != nil && past(b.lastBoost) }
 //@           forall(0, 256, func(k int) bool { return implies(old(!has(m.sentTimes, uint8(k))) && !(is[*PacketData](msg) && as[*PacketData](msg).Seq == uint8(k)), !has(m.sentTimes, uint8(k))) }))
 
 //@ func (m *TimeoutManager) Received(msg Message)
-//@   props C20 C07
+//@   props C20 C07 C18
+//@   acquires TimeoutManager.mu, TimeoutManager.latestSentSYNTimeMu, TimeoutManager.sentTimesMu, TimeoutBooster.mu
 //@   requires tminv(m)
 //@   requires implies(is[*PacketACK](msg), as[*PacketACK](msg) != nil)
 //@   modifies m.latestSentSYNTime, entries(m.sentTimes), m.responseCounter, m.hasSetDynamicTimeout, m.resendTimeout,
@@ -378,37 +428,44 @@ func boinv(b *TimeoutBooster) bool { return b != nil && past(b.lastBoost) }
 //@   ensures forall(0, 256, func(k int) bool { return implies(has(m.sentTimes, uint8(k)), old(has(m.sentTimes, uint8(k)))) })
 
 //@ func (m *TimeoutManager) GetResendTimeout() (r time.Duration)
-//@   props C20
+//@   props C20 C18
+//@   acquires TimeoutManager.mu, TimeoutBooster.mu
 //@   requires tminv(m)
 //@   ensures implies(!m.useStaticTimeout && m.resendBooster.boostCount >= 0 && m.resendBooster.boostCount <= 1<<16 && m.resendTimeout <= 1<<40 &&
 //@           m.resendBooster.boostPercent >= 0 && m.resendBooster.boostPercent <= 16, r >= minimumResendTimeout)
 
 //@ func (m *TimeoutManager) GetHandshakeTimeout() (r time.Duration)
-//@   props C20 C10
+//@   props C20 C10 C18
+//@   acquires TimeoutManager.mu, TimeoutBooster.mu
 //@   requires tminv(m)
 
 //@ func (m *TimeoutManager) GetSendTimeout() (r time.Duration)
-//@   props C20
+//@   props C20 C18
+//@   acquires TimeoutManager.mu
 //@   requires m != nil
 //@   ensures r == m.sendTimeout
 
 //@ func (m *TimeoutManager) GetRecvTimeout() (r time.Duration)
-//@   props C20
+//@   props C20 C18
+//@   acquires TimeoutManager.mu
 //@   requires m != nil
 //@   ensures r == m.recvTimeout
 
 //@ func (m *TimeoutManager) GetFinSendTimeout() (r time.Duration)
-//@   props C20
+//@   props C20 C18
+//@   acquires TimeoutManager.mu
 //@   requires m != nil
 //@   ensures r == m.finSendTimeout
 
 //@ func (m *TimeoutManager) GetPingTime() (r time.Duration)
-//@   props C20
+//@   props C20 C18
+//@   acquires TimeoutManager.mu
 //@   requires m != nil
 //@   ensures r != 0
 
 //@ func (m *TimeoutManager) GetPongTime() (r time.Duration)
-//@   props C20
+//@   props C20 C18
+//@   acquires TimeoutManager.mu
 //@   requires m != nil
 //@   ensures r != 0
 
@@ -477,7 +534,8 @@ func wireGrew2(oldLen int, b0, b1 uint8) bool {
 //@   ensures fresh(g.sendQueue) && fresh(g.sendQueue.quit) && !closed(g.sendQueue.quit)
 
 //@ func (g *GoBackNConn) sendPacket(ctx context.Context, msg Message, isResend bool) (err error)
-//@   props C01 C07
+//@   props C01 C07 C18
+//@   acquires TimeoutManager.latestSentSYNTimeMu, TimeoutManager.sentTimesMu, TimeoutBooster.mu
 //@   inline
 //@   requires gcfg(g) && isPacket(msg)
 //@   modifies g.timeoutManager.latestSentSYNTime, entries(g.timeoutManager.sentTimes), g.timeoutManager.handshakeBooster.boostCount,
@@ -526,12 +584,14 @@ func wireGrew2(oldLen int, b0, b1 uint8) bool {
 
 //@ func (t *IntervalAwareForceTicker) Reset()
 //@   props C07 C18
+//@   acquires IntervalAwareForceTicker.resetMtx, IntervalAwareForceTicker.lastTimedTickMtx
 //@   requires tkinv(t)
 //@   modifies t.interval, t.ticker, t.quit, t.lastTimedTick, chanstate(t.quit)
 //@   ensures tkinv(t) && fresh(t.ticker) && fresh(t.quit)
 
 //@ func (t *IntervalAwareForceTicker) ResetWithInterval(newInterval time.Duration)
 //@   props C07 C18
+//@   acquires IntervalAwareForceTicker.resetMtx, IntervalAwareForceTicker.lastTimedTickMtx
 //@   requires tkinv(t)
 //@   modifies t.interval, t.ticker, t.quit, t.lastTimedTick, chanstate(t.quit)
 //@   ensures tkinv(t) && fresh(t.ticker) && fresh(t.quit)
@@ -555,12 +615,15 @@ func wireGrew2(oldLen int, b0, b1 uint8) bool {
 
 //@ func (t *IntervalAwareForceTicker) Stop()
 //@   props C07 C12 C18
+//@   acquires IntervalAwareForceTicker.resetMtx
 //@   requires tkinv(t)
 //@   modifies t.isActive, chanstate(t.quit)
 //@   ensures closed(t.quit) && t.isActive == 0
 
 //@ func (g *GoBackNConn) receivePacketsForever() (err error)
-//@   props C01 C07 C09 C12
+//@   props C01 C07 C09 C12 C18
+//@   acquires TimeoutManager.mu, TimeoutManager.latestSentSYNTimeMu, TimeoutManager.sentTimesMu, TimeoutBooster.mu, queue.baseMtx, queue.topMtx, syncer.mu, IntervalAwareForceTicker.lastTimedTickMtx, IntervalAwareForceTicker.resetMtx
+//@   role recv
 //@   requires ginv(g) && gstarted(g) && !closed(g.remoteClosed)
 //@   noframe
 //@   loop 0 invariant ginv(g)
@@ -579,19 +642,23 @@ func wireGrew2(oldLen int, b0, b1 uint8) bool {
 //@   loop 0 step @C01,C09 g.sendQueue.sequenceTop == old(g.sendQueue.sequenceTop)
 
 //@ func (c *syncer) proceedAfterTime()
-//@   props C07 C12
+//@   props C07 C12 C18
+//@   acquires TimeoutManager.mu, TimeoutBooster.mu, syncer.mu
 //@   requires syinv(c) && tminv(c.timeoutManager)
 //@   modifies c.state
 //@   noframe
 
 //@ func (c *syncer) waitForSync()
-//@   props C07 C12
+//@   props C07 C12 C18
+//@   acquires TimeoutManager.mu, TimeoutBooster.mu, syncer.mu
 //@   requires syinv(c) && tminv(c.timeoutManager)
 //@   modifies c.state
 //@   noframe
 
 //@ func (q *queue) resend() (err error)
-//@   props C01 C07 C09
+//@   props C01 C07 C09 C18
+//@   role send
+//@   acquires TimeoutManager.mu, TimeoutBooster.mu, queue.baseMtx, queue.topMtx, syncer.mu
 //@   requires qinv(q) && qcontent(q)
 //@   modifies q.lastResend, q.syncer.state, q.syncer.expectedACK, q.syncer.expectedNACK
 //@   loop 0 invariant qinv(q) && qcontent(q) && base < q.cfg.s && top == q.sequenceTop && nevents("call") >= old(nevents("call"))
@@ -608,7 +675,9 @@ func wireGrew2(oldLen int, b0, b1 uint8) bool {
 //@   ensures @C01,C09 implies(old(qsize(q)) == 0, nevents("call") == old(nevents("call")))
 
 //@ func (g *GoBackNConn) sendPacketsForever() (err error)
-//@   props C01 C07 C09 C12
+//@   props C01 C07 C09 C12 C18
+//@   acquires TimeoutManager.mu, TimeoutManager.latestSentSYNTimeMu, TimeoutManager.sentTimesMu, TimeoutBooster.mu, queue.baseMtx, queue.topMtx, syncer.mu, IntervalAwareForceTicker.lastTimedTickMtx, IntervalAwareForceTicker.resetMtx
+//@   role send
 //@   requires ginv(g) && gstarted(g) && qcontent(g.sendQueue) && qsize(g.sendQueue) < int(g.cfg.n)
 //@   noframe
 //@   at "g.sendQueue.addPacket(packet)" assume notQueued(g.sendQueue, packet)
@@ -648,7 +717,9 @@ func gopen(g *GoBackNConn) bool {
 //@   ensures fresh(t) && tkinv(t) && fresh(t.quit) && t.isActive == 0
 
 //@ func (g *GoBackNConn) start()
-//@   props C12
+//@   props C12 C18
+//@   acquires TimeoutManager.mu, TimeoutBooster.mu
+//@   role start
 //@   requires ginv(g) && g.pingTicker == nil && g.pongTicker == nil && g.resendTicker == nil && !isnil(g.cancel)
 //@   noframe
 //@   ensures ginv(g)
@@ -659,7 +730,9 @@ func gopen(g *GoBackNConn) bool {
 //@   ensures @C12 nevents("wg.add") == old(nevents("wg.add"))+2
 
 //@ func (g *GoBackNConn) Close() (err error)
-//@   props C12
+//@   props C12 C18
+//@   acquires TimeoutManager.mu, TimeoutManager.latestSentSYNTimeMu, TimeoutManager.sentTimesMu, TimeoutBooster.mu, IntervalAwareForceTicker.resetMtx
+//@   role close
 //@   requires ginv(g) && !isnil(g.cancel) && iff(oncedone(&g.closeOnce), closed(g.quit)) && iff(oncedone(&g.closeOnce), closed(g.sendQueue.quit))
 //@   requires (g.pingTicker == nil && g.pongTicker == nil && g.resendTicker == nil) || gstarted(g)
 //@   noframe
@@ -711,7 +784,8 @@ func chunkEnd(data []byte, first, n int) int {
 }
 
 //@ func (g *GoBackNConn) Send(data []byte) (err error)
-//@   props C14 C12
+//@   props C14 C12 C18
+//@   acquires TimeoutManager.mu
 //@   requires g != nil && g.cfg != nil && tminv(g.timeoutManager) && g.cfg.maxChunkSize >= 0
 //@   loop 0 invariant sentBytes >= 0 && sentBytes <= len(data) && maxChunk == g.cfg.maxChunkSize && maxChunk > 0 && len(data) > 0
 //@   loop 0 invariant nsent() >= old(nsent()) && chunkEnd(data, old(nsent()), nsent()) == sentBytes
@@ -767,7 +841,8 @@ func appended(b, a, p []byte) bool {
 }
 
 //@ func (g *GoBackNConn) Recv() (b []byte, err error)
-//@   props C14 C12
+//@   props C14 C12 C18
+//@   acquires TimeoutManager.mu
 //@   requires g != nil && g.cfg != nil && tminv(g.timeoutManager)
 //@   modifies g.recvBuf
 //@   loop 0 invariant nrecv() >= old(nrecv())
